@@ -407,6 +407,74 @@ func ruleUnterminatedObservable(c *Ctx) {
 	if n == 0 {
 		c.unres("delimited literal tokens", lf.base.Pos(), "no token built from a delimited scanner found")
 	}
+	// the scanners' own exits: an exit taken because the input ended must leave a current byte that is not the
+	// delimiter, otherwise the dispatcher's `current byte == delimiter` test cannot tell it from the closing exit
+	for _, key := range lf.order {
+		cx := lf.ctxs[key]
+		if cx.fn == lf.base || cx.fn == lf.skipper || cx.entry == nil || !cx.entry.live || resultBuilder(cx.fn) == nil || cx.in == nil {
+			continue
+		}
+		d, single := cx.entry.cur.single()
+		if !single {
+			continue
+		}
+		f := cx.fn
+		reaches := func(from, to *ssa.BasicBlock) bool {
+			seen := map[*ssa.BasicBlock]bool{}
+			var dfs func(b *ssa.BasicBlock) bool
+			dfs = func(b *ssa.BasicBlock) bool {
+				if seen[b] {
+					return false
+				}
+				seen[b] = true
+				for _, s2 := range b.Succs {
+					if s2 == to || dfs(s2) {
+						return true
+					}
+				}
+				return false
+			}
+			return dfs(from)
+		}
+		m := 0
+		for _, b := range f.Blocks {
+			iff := blockIf(b)
+			in := cx.in[b]
+			if iff == nil || in == nil || !in.live || !reaches(b, b) {
+				continue
+			}
+			for i, succ := range b.Succs {
+				if succ == b || reaches(succ, b) {
+					continue // stays in the loop
+				}
+				st := in.clone()
+				for _, ins := range b.Instrs {
+					lf.transfer(cx, st, ins)
+				}
+				if !lf.refine(st, cx, iff.Cond, i == 0) {
+					continue
+				}
+				zero := setOf(0)
+				eofExit := st.cur.sub(zero) || st.peek.sub(zero)
+				if !eofExit {
+					continue
+				}
+				m++
+				k := fmt.Sprintf("%s [%s…]: end-of-input exit #%d", f.Name(), string(rune(d)), m)
+				ipos := iff.Pos()
+				if !ipos.IsValid() {
+					ipos = iff.Cond.Pos()
+				}
+				if !ipos.IsValid() {
+					ipos = f.Pos()
+				}
+				c.check(!st.cur.has(d), k, ipos, fmt.Sprintf("leaves current byte %s, never the delimiter", st.cur), fmt.Sprintf("the scanner leaves its loop because the input ended, with a current byte that can still be the delimiter %q (current byte %s) — for instance right after an escaped delimiter: the dispatcher's `current byte == delimiter` test then accepts a literal that was cut off by the end of the file", string(rune(d)), st.cur))
+			}
+		}
+		if m == 0 {
+			c.unres(fmt.Sprintf("%s [%s…]: end-of-input exit", f.Name(), string(rune(d))), f.Pos(), "no loop exit that is taken at end of input was found in the scanner (accepted: an exit edge on which the current or the look-ahead byte is known to be 0)")
+		}
+	}
 }
 
 
